@@ -617,8 +617,20 @@ def protocol_observations(exe, tmp):
             rc, out, err = run(exe, ['--transformation=local-to-global', f'--counter={k}', src])
             ok = rc == 1 and OUT_OF_RANGE_MSG in out and BODY not in out and '/*moved*/' not in out
             obs.append((f'counter-beyond:{ext}:{k}', None if ok else 'out-of-range-counter-not-refused-with-exit-1', f'rc={rc} stdout={out[:160]!r}'))
-    # conventions of the CLI
+    # counters that are out of range in other ways: with the warn flag (this unit does not clamp: still the out-of-range
+    # error and its exit status), values beyond the range of an int (refused, nothing rewritten)
     src = os.path.join(tmp, 'input.c')
+    rc, out, err = run(exe, ['--transformation=local-to-global', f'--counter={n_markers + 1}', '--warn-on-counter-out-of-bounds', src])
+    ok = rc == 1 and OUT_OF_RANGE_MSG in out and '/*moved*/' not in out
+    obs.append(('counter-beyond-with-warn-flag', None if ok else 'out-of-range-counter-not-refused-with-exit-1', f'rc={rc} stdout={out[:160]!r}'))
+    for big in (2 ** 32 + 1, 2 ** 32 + n_markers, 2 ** 31 - 1, 2 ** 31, 2 ** 63 + 2, 10 ** 22):
+        rc, out, err = run(exe, ['--transformation=local-to-global', f'--counter={big}', src])
+        ok = rc not in (0,) and rc > 0 and '/*moved*/' not in out and BODY not in out
+        obs.append((f'huge-counter:{big}', None if ok else 'counter-beyond-int-range-not-refused', f'rc={rc} stdout={out[:120]!r}'))
+    rc, out, err = run(exe, ['--transformation=local-to-global', '--counter=1', f'--to-counter={2 ** 32 + 2}', src])
+    ok = rc > 0 and '/*moved*/' not in out
+    obs.append(('huge-to-counter', None if ok else 'counter-beyond-int-range-not-refused', f'rc={rc} stdout={out[:120]!r}'))
+    # conventions of the CLI
     rc, out, err = run(exe, ['--transformation=no-such-transformation', '--counter=1', src])
     obs.append(('unknown-transformation', None if rc == 255 else 'unknown-transformation-exit-code', f'rc={rc} out={(out + err)[:160]!r}'))
     rc, out, err = run(exe, ['--transformation=local-to-global', '--counter=1', os.path.join(tmp, 'missing.c')])
